@@ -209,7 +209,7 @@ Proof.
   change (2 ^ Z.of_nat 128) with M128 in *. pose proof (luval_range _ Ka') as Ra'.
   split; [exact Kq|split; [|reflexivity]].
   assert (luval a = luval q * luval b + luval rem) as Ediv by (unfold M128 in *; lia).
-  symmetry. apply (Z.div_unique_pos _ _ _ (luval rem)); [lia|]. rewrite Ediv. ring.
+  apply (Z.div_unique_pos _ _ _ (luval rem)); [lia|]. rewrite Ediv. ring.
 Qed.
 
 Theorem luint_div_uint_Z a w : lu_ok a -> u64 w -> w <> 0 ->
